@@ -140,6 +140,10 @@ func (e *Engine) merge(a, b *State) *State {
 	if diff > mergeMaxDiff && !e.forceMerge {
 		return nil
 	}
+	if e.noMerge && !e.forceMerge && diff > 0 {
+		// `option nomerge`: paths of this function are kept apart (more, but ite-free, obligations)
+		return nil
+	}
 	L := commonPrefix(a.path, b.path)
 	split := func(s *State) (cond *Term, facts []*Term) {
 		var cs []*Term
